@@ -142,6 +142,7 @@ let replay_instance (h : shist) (k : int) : unit =
              | ["ev"; "shutdown"] -> start SILoopShutdown "shutdown" true
              | ["ev"; "capacity"; _] when h.gen = 1 -> start SIRecalc "recalc" true
              | ["ev"; ("error" | "provision-start"); _] -> start SILoopProvision "loop-provision" true
+             | ["ev"; "provision-done"; _] -> start SICreateRet "create-ret" true
              | ["sample"; cap; mx] ->
                  if !owed <> [] then
                    Stdlib.raise (Reject (ln.t, "missing:" ^ (match !owed with (o :: _) :: _ -> sobs_str o | _ -> "?"),
@@ -164,7 +165,7 @@ let replay_instance (h : shist) (k : int) : unit =
         | l0 :: _ when l0.t <> ln.t -> groups (List.rev cur :: acc) [ln] r
         | _ -> groups acc (ln :: cur) r) in
   let is_trigger ln = match ln.w with
-    | ["ev"; "released"; _] | ["lm"; "lease"; _] -> true
+    | ["ev"; "released"; _] | ["lm"; "lease"; _] | ["ev"; "provision-done"; _] -> true
     | "act" :: "probe" :: _ -> false
     | "act" :: _ -> true
     | _ -> false in
